@@ -84,7 +84,7 @@ META = {
         'technique': 'Verus totality proofs (no precondition on the bytes) and invariant-establishing postconditions on the real decoders of core/air types, against assumed ByteReader/ByteWriter contracts; the same for the real 230-arm AST instruction decoder',
         'design_ref': '§7 C19/C10',
         'level_text': 'Deductive proof for all byte strings: StackOutputs/StackInputs/Kernel decoders, ExecutionProof::from_bytes/HashFunction::try_from and the assembly instruction decoder (Instruction::read_from, OpCode::read_from, parse_num_push_params) return Ok or Err without panicking; accepted StackOutputs/Kernel satisfy the constructors\' invariants (canonical elements, >= 16 items, consistent overflow addresses, <= 255 distinct kernel procedures); StackOutputs::new rejects exactly non-canonical / inconsistent data.',
-        'level_note': 'Trusted: winter-utils reader/writer contracts, std sort/windows helper contracts inside Kernel::new. LibraryPath::read_from is covered by a bounded exhaustive run only (labelled bounded). Not decided: AST container / library decoders of the assembly crate (Node, CodeBody, ProcedureAst, ModuleAst, MaslLibrary), iterator-closure constructors (try_from_values, with_stack_values).',
+        'level_note': 'Trusted: winter-utils reader/writer contracts, std sort/windows helper contracts inside Kernel::new. LibraryPath::read_from is covered by a bounded exhaustive run only (labelled bounded); a bounded set of hostile AST encodings (deep nesting, every byte in instruction position, truncations) is decoded one process per input (open known finding F38: unbounded recursion aborts on 20000 nested blocks). Not decided: AST container / library decoders of the assembly crate (Node, CodeBody, ProcedureAst, ModuleAst, MaslLibrary), iterator-closure constructors (try_from_values, with_stack_values).',
     },
     'C02': {
         'engine': 'E1 verus-extract',
@@ -102,10 +102,10 @@ META = {
     },
     'C16': {
         'engine': 'E2 mast-lemmas',
-        'technique': 'Verus lemmas generated over the MAST that /repo\'s assembler builds from stdlib/asm/math/u64.masm, composing the hub operation semantics; per-step normal-form lemmas for long procedures',
+        'technique': 'Verus lemmas generated over the MAST that /repo\'s assembler builds from stdlib/asm/math/u64.masm and u256.masm, composing the hub operation semantics; per-step normal-form lemmas (shared sub-terms) for long procedures; bounded stand-in (real assembler + processor) on the limb-boundary grid for the rest',
         'design_ref': '§5, §7 C16',
-        'level_text': 'Deductive proof for all 32-bit limbs and every stack tail: overflowing/wrapping add, sub, mul, lt/gt/lte/gte/eq/neq/eqz, min/max, and/or/xor, div/mod/divmod compute exactly the documented integer functions, leave the rest of the stack untouched (zero fill at depth 16 included); the dividing procedures never complete on a zero divisor.',
-        'level_note': 'Trusted: hub operation semantics (proved for the processor in C05), mastdump/generator, P prime. Not decided: shl/shr/rotl/rotr/clz/ctz/clo/cto and u256.',
+        'level_text': 'Deductive proof for all 32-bit limbs and every stack tail: overflowing/wrapping add, sub, mul, lt/gt/lte/gte/eq/neq/eqz, min/max, and/or/xor, div/mod/divmod compute exactly the documented integer functions, leave the rest of the stack untouched (zero fill at depth 16 included); the dividing procedures never complete on a zero divisor; shl; u256 and / or / xor / iszero_unsafe / eq_unsafe. Bounded: all 29 u64 and all 8 u256 procedures on the limb-boundary grid.',
+        'level_note': 'Trusted: hub operation semantics (proved for the processor in C05), mastdump/generator, P prime. Not proved deductively (bounded only): u64 shr/rotl/rotr/clz/ctz/clo/cto, u256 add/sub/mul.',
     },
     'C09': {
         'engine': 'E2 mast-lemmas',
